@@ -98,7 +98,7 @@ def run(prog: Program, rep, thorough: bool) -> None:
             try:
                 ev.lookup(n, State(), Ctx(tc, F.func, None, 0))
             except Undecided:
-                env[n] = S(f'${n}')
+                env[n] = SymObj(n) if n in F.func.params else S(f'${n}')
     st.env.update(env)
     try:
         tree = ev.exec_block(LB.stmts, st, Ctx(tc, F.func, None, 0))
